@@ -199,6 +199,7 @@ def main(argv=None):
             "monitor_violations": len(violations),
             "known_findings_confirmed": sorted(known_hits.keys()),
             "problems": problems[:10],
+            "skeleton_changed": ext.get("skeleton_changed", []),
         },
         "assumptions": cfg.get("assumptions", []),
         "wall_s": round(time.time() - t0, 2),
